@@ -906,3 +906,9 @@ Qed.
 Lemma transform_Z_identity p :
   transform Z Z.add Z.mul (mkaffine 1 0 0 1 0 0)%Z p = p.
 Proof. destruct p as [x y]. unfold transform. cbn -[Z.add Z.mul]. f_equal; ring. Qed.
+
+(** ---------- a concrete instance for the examples of Props/C20.v ---------- *)
+Definition ZP := (Z * Z)%type.
+Definition zsum (a b : ZP) : ZP := (fst a + fst b, snd a + snd b)%Z.
+Definition zc (l : list (ptype * Z * Z)) : list (point ZP) :=
+  map (fun t => ((fst (fst t), false), (snd (fst t), snd t))) l.
